@@ -86,48 +86,77 @@ static void __config_write_setting(const config_t *config,
 
 /* ------------------------------------------------------------------------- */
 
-static void __config_locale_override(void)
+#if (defined(WIN32) || defined(_WIN32) || defined(__WIN32__)) \
+  && ! defined(__MINGW32__)
+
+typedef int config_saved_locale_t;
+
+#elif defined(__APPLE__) \
+  || ((defined HAVE_NEWLOCALE) && (defined HAVE_USELOCALE))
+
+typedef locale_t config_saved_locale_t;
+
+#else
+
+typedef int config_saved_locale_t;
+
+#endif
+
+/* Switches the calling thread to the "C" locale and returns the locale that
+ * was in effect for the thread, to be passed to __config_locale_restore().
+ */
+static config_saved_locale_t __config_locale_override(void)
 {
 #if (defined(WIN32) || defined(_WIN32) || defined(__WIN32__)) \
   && ! defined(__MINGW32__)
 
   _configthreadlocale(_ENABLE_PER_THREAD_LOCALE);
   setlocale(LC_NUMERIC, "C");
+  return(0);
 
 #elif defined(__APPLE__)
 
   locale_t loc = newlocale(LC_NUMERIC_MASK, "C", NULL);
-  uselocale(loc);
+  return(loc ? uselocale(loc) : (locale_t)0);
 
 #elif ((defined HAVE_NEWLOCALE) && (defined HAVE_USELOCALE))
 
   locale_t loc = newlocale(LC_NUMERIC, "C", NULL);
-  uselocale(loc);
+  return(loc ? uselocale(loc) : (locale_t)0);
 
 #else
 
 #warning "No way to modify calling thread's locale!"
+  return(0);
 
 #endif
 }
 
 /* ------------------------------------------------------------------------- */
 
-static void __config_locale_restore(void)
+static void __config_locale_restore(config_saved_locale_t saved)
 {
 #if (defined(WIN32) || defined(_WIN32) || defined(__WIN32__)) \
   && ! defined(__MINGW32__)
 
+    (void)saved;
     _configthreadlocale(_DISABLE_PER_THREAD_LOCALE);
 
 #elif ((defined HAVE_USELOCALE) && (defined HAVE_FREELOCALE))
 
-  locale_t loc = uselocale(LC_GLOBAL_LOCALE);
-  freelocale(loc);
+  /* Reinstate the thread's previous locale (which may be LC_GLOBAL_LOCALE)
+   * and release the temporary one.
+   */
+  if(saved)
+  {
+    locale_t loc = uselocale(saved);
+    freelocale(loc);
+  }
 
 #else
 
 #warning "No way to modify calling thread's locale!"
+  (void)saved;
 
 #endif
 }
@@ -525,6 +554,7 @@ static int __config_read(config_t *config, FILE *stream, const char *filename,
   struct scan_context scan_ctx;
   struct parse_context parse_ctx;
   int r;
+  config_saved_locale_t saved_locale;
 
   /* Forget the outcome of any previous call. */
   __config_set_error(config, CONFIG_ERR_NONE, NULL);
@@ -536,7 +566,7 @@ static int __config_read(config_t *config, FILE *stream, const char *filename,
   parse_ctx.parent = config->root;
   parse_ctx.setting = config->root;
 
-  __config_locale_override();
+  saved_locale = __config_locale_override();
 
   libconfig_scanctx_init(&scan_ctx, filename);
   config->root->file = libconfig_scanctx_current_filename(&scan_ctx);
@@ -568,7 +598,7 @@ static int __config_read(config_t *config, FILE *stream, const char *filename,
   config->filenames = libconfig_scanctx_cleanup(&scan_ctx);
   libconfig_parsectx_cleanup(&parse_ctx);
 
-  __config_locale_restore();
+  __config_locale_restore(saved_locale);
 
   return(r == 0 ? CONFIG_TRUE : CONFIG_FALSE);
 }
@@ -627,11 +657,11 @@ static void __config_write_setting(const config_t *config,
 
 void config_write(const config_t *config, FILE *stream)
 {
-  __config_locale_override();
+  config_saved_locale_t saved_locale = __config_locale_override();
 
   __config_write_setting(config, config->root, stream, 0);
 
-  __config_locale_restore();
+  __config_locale_restore(saved_locale);
 }
 
 /* ------------------------------------------------------------------------- */
